@@ -43,11 +43,10 @@ def pinch_analysis_service(data: Any, project_name: str = "Project", is_return_f
         tables ready for serialisation.
     """
     # Validate request data using Pydantic model
-    request_data = TargetInput.model_validate(data)
-    if request_data is data:
-        # An already validated model is returned as is; the preparation step
-        # rewrites zones and utility fields in place, so work on a copy.
-        request_data = data.model_copy(deep=True)
+    # Validation returns an already validated model (or validated records held
+    # in a dictionary) as is; the preparation step rewrites zones and utility
+    # fields in place, so work on a copy.
+    request_data = TargetInput.model_validate(data).model_copy(deep=True)
 
     # Formulate the top level zone with all subzones and approperiate input data
     master_zone = prepare_problem(
